@@ -220,6 +220,10 @@ def earlier_simulation(resource, supply):
             scope.do(user(1))
             scope.do(user(0.5))
             scope.do(user(0))
+            # one holder and one waiter are forcefully closed at the end of that simulation
+            scope.do(user(1000), volatile=True)
+            scope.do(user(1000), volatile=True)
+            await (time + 2)
     usim.run(main())
 
 
